@@ -197,6 +197,7 @@ Section Rng.
     destruct n as [ | |c|bs|bs|cs|l0|a b| | |sol ml|inv ui|id c nm|g ic|b|alts icase|ng bw sg' eg' c|body mn mx gr egs ege|body mn mx gr];
       cbn [ir_results leaf_code] in Hr; try (eapply okpos_cond; eauto; fail); try discriminate.
     - inversion Hr; subst. constructor; [exact Hp|constructor].
+    - inversion Hr; subst. constructor; [exact Hp|constructor].
     - eapply okpos_results_of; eauto.
     - eapply okpos_results_of; eauto.
     - destruct (emit_byte_set bs); [discriminate|eapply okpos_results_of; eauto].
